@@ -196,6 +196,48 @@ def cases(tier):
     return out
 
 
+def random_double(rng):
+    """doubles spread over the whole exponent range, with a bias towards integers and short decimals"""
+    k = rng.random()
+    if k < 0.25:
+        x = float(rng.randrange(-10 ** rng.randrange(1, 17), 10 ** rng.randrange(1, 17)))
+    elif k < 0.45:
+        x = round(rng.uniform(-1000, 1000), rng.randrange(0, 6))
+    elif k < 0.85:
+        x = math.ldexp(rng.uniform(0.5, 1.0), rng.randrange(-1074, 1024)) * rng.choice((1, -1))
+    else:
+        x = struct.unpack(">d", struct.pack(">Q", rng.getrandbits(64)))[0]
+    return x if math.isfinite(x) else 1.0
+
+
+def dense_cases(tier, seed):
+    """seed-dependent part: random operands for every operator / function, an integer grid for pow"""
+    rng = runner.rng_for(seed, "c09-dense")
+    n1, n2 = (250, 400) if tier == "quick" else (4000, 6000)
+    out = []
+    for _ in range(n1):
+        x = random_double(rng)
+        for fn in list(UNFNS) + list(BOOLFNS) + list(TWOWAY):
+            out.append(("fn1", fn, (x,)))
+    for _ in range(n2):
+        a, b = random_double(rng), random_double(rng)
+        if rng.random() < 0.3:
+            b = float(rng.randrange(-70, 70))
+        op = rng.choice(list(BINOPS))
+        out.append(("bin", op, (a, b)))
+        out.append(("fn2", rng.choice(list(BINFNS)), (a, b)))
+        if rng.random() < 0.2:
+            out.append(("cmp", "all", (a, b if rng.random() < 0.7 else nextafter(a, b))))
+    bases = [2.0, 3.0, 5.0, 6.0, 7.0, 9.0, 10.0, 11.0, 12.0, 15.0, 17.0, 100.0, 1.5, 0.1, -3.0, -10.0]
+    exps = range(0, 330, 1 if tier == "thorough" else 3)
+    for b in bases:
+        for e in exps:
+            out.append(("fn2", "pow", (b, float(e))))
+            if e % 7 == 0:
+                out.append(("fn2", "pow", (b, -float(e))))
+    return out
+
+
 def source(kind, name, args):
     A = [jnum(x) for x in args]
     if kind == "bin":
@@ -337,6 +379,9 @@ def shard(idx, n, tier, seed, binary):
         allc = cases(tier)
         for kind, name, args in runner.chunks(allc, idx, n):
             check_case(acc, w, kind, name, args)
+        for kind, name, args in runner.chunks(dense_cases(tier, seed), idx, n):
+            check_case(acc, w, kind, name, args)
+            acc.inc("dense_cases")
         for c in allc[idx::max(1, len(allc) // 4)][:1]:
             acc.sample({"source": source(*c)})
     finally:
@@ -364,12 +409,14 @@ def run(tier, seed, t0):
         PROP, tier, seed, "exploration", acc, t0,
         rule="exhaustive over a %d-element boundary set of doubles: all ordered pairs x %d binary "
              "operators/functions + a 19-probe comparison-coherence record per pair, singles x unary "
-             "operators/functions, triples for std.clamp; a case is counted distinct_nontrivial when "
+             "operators/functions, triples for std.clamp; plus a seeded dense part: random doubles over the whole exponent "
+             "range under every function / operator and an integer base x exponent grid for std.pow; a case is counted distinct_nontrivial when "
              "its source text is new and the real result agreed with the IEEE/libm oracle"
              % (len(boundary_set()), len(BINOPS) + len(BINFNS)),
         assumptions=["Python float arithmetic and the platform libm (via ctypes) are correct IEEE-754",
                      "number literals are written with Python repr (shortest round-trip)"],
-        exhaustive=True, min_events=1000)
+        exhaustive=False, min_events=1000,
+        extra={"exhaustive_part": "all ordered pairs / singles of the boundary set under every operator and function (seed independent)"})
 
 
 def replay(path):
